@@ -37,6 +37,7 @@ type Contract struct {
 	KeyedInv   map[string][]Clause // invariants keyed by loop source text ("range x.y", "for i < n")
 	KeyedDec   map[string]Clause
 	KeyOrder   []string            // loop keys in order of first appearance in the contract
+	Preserves  map[string][]SExpr  // preserves[call f#k] designators: the caller assumes the call leaves these locations unchanged
 	Closures   map[int]Clause      // closure[k]: functional specification of the k-th function literal ($0, $1 ... are its parameters)
 	Asserts    map[string][]Clause // "call os.Symlink#0" -> assertions checked right before that call
 	Modifies   []SExpr
@@ -377,7 +378,7 @@ func parseFuncHeader(hdr string) (*ast.FuncDecl, error) {
 func parseClauses(c *Contract, d *directive) error {
 	// group continuation lines into clauses
 	var clauses []string
-	kw := regexp.MustCompile(`^(requires|ensures|invariant|decreases|assert|closure|modifies|let|pure|trusted|noinline)\b`)
+	kw := regexp.MustCompile(`^(requires|ensures|invariant|decreases|assert|closure|preserves|modifies|let|pure|trusted|noinline)\b`)
 	for _, ln := range d.lines {
 		if kw.MatchString(ln) {
 			clauses = append(clauses, ln)
@@ -413,7 +414,7 @@ func parseClauses(c *Contract, d *directive) error {
 			}
 		case strings.HasPrefix(cl, "let "):
 			rest := strings.TrimPrefix(cl, "let ")
-			for _, part := range splitTop(rest) {
+			for _, part := range splitLets(rest) {
 				i := strings.Index(part, "=")
 				if i < 0 {
 					return fmt.Errorf("let x = e")
@@ -428,6 +429,26 @@ func parseClauses(c *Contract, d *directive) error {
 			m := splitClauseHead(cl)
 			if m == nil {
 				return fmt.Errorf("bad clause %q", cl)
+			}
+			if m[1] == "preserves" {
+				key := strings.Join(strings.Fields(m[3]), " ")
+				if !strings.HasPrefix(key, "call ") {
+					return fmt.Errorf("preserves[call <callee>#k] expected: %q", cl)
+				}
+				if !strings.Contains(key, "#") {
+					key += "#0"
+				}
+				if c.Preserves == nil {
+					c.Preserves = map[string][]SExpr{}
+				}
+				for _, part := range splitTop(m[4]) {
+					e, err := parseSpec(part)
+					if err != nil {
+						return err
+					}
+					c.Preserves[key] = append(c.Preserves[key], e)
+				}
+				continue
 			}
 			e, err := parseSpec(m[4])
 			if err != nil {
@@ -539,7 +560,7 @@ func ifaceMethodKey(m *types.Func) string {
 
 // splitClauseHead parses "keyword[label with [nested] brackets] text" into {whole, keyword, "[label]", label, text}.
 func splitClauseHead(cl string) []string {
-	for _, kw := range []string{"requires", "ensures", "invariant", "decreases", "assert", "closure"} {
+	for _, kw := range []string{"requires", "ensures", "invariant", "decreases", "assert", "closure", "preserves"} {
 		if !strings.HasPrefix(cl, kw) {
 			continue
 		}
@@ -606,4 +627,26 @@ func (w *World) resolveQualified(text string) types.Type {
 		}
 	}
 	return found
+}
+
+var letStartRe = regexp.MustCompile(`^\s*[A-Za-z_]\w*\s*=[^=]`)
+
+// splitLets splits "x = e1, y = e2" at top-level commas that start a new binding.
+func splitLets(s string) []string {
+	var out []string
+	depth, start := 0, 0
+	for i := 0; i < len(s); i++ {
+		switch s[i] {
+		case '(', '[', '{':
+			depth++
+		case ')', ']', '}':
+			depth--
+		case ',':
+			if depth == 0 && letStartRe.MatchString(s[i+1:]) {
+				out = append(out, strings.TrimSpace(s[start:i]))
+				start = i + 1
+			}
+		}
+	}
+	return append(out, strings.TrimSpace(s[start:]))
 }
